@@ -578,6 +578,10 @@ class RaceWorld:
         self.clock.advance_to(self.clock.now + service_time)
         run = req.get("run") or self.exec_runs[self.worker_of_client(c)]
         self.cell_override[c] = "failed"
+        if kind == "unsuccessful":
+            # the request is answered, but the runner reports it as failed (success: False), e.g. a bulk with rejected items:
+            # fatal under on-error=abort only
+            exc = {"vid": req["n"], "deps": 0, "t": self.clock.time(), "unsuccessful": True}
         run.resume(lambda: req["fut"].set_result(exc))
 
     def worker_of_client(self, c):
